@@ -120,6 +120,9 @@ def correspond(ctx):
     # H and Df.  kkt_qr has no nonlinear variant; kkt_chol2 takes part on 'l'-only cones.
     nnl = 40 if ctx.quick() else 1500
     nl_systems = 0
+    rng_main, rng = rng, random.Random(ctx.seed * 613 + 77)          # own stream: the families below keep the instances they had before this one existed
+    def interior(dims):
+        return matrix(PR.interior_point(rng, dims), tc='d')
     for it in range(nnl):
         dims = PR.rand_dims(rng)
         if it % 3 == 0: dims = {'l': rng.randint(0, 2), 'q': [3] if rng.random() < 0.5 else [], 's': [rng.randint(2, 3) for _ in range(rng.randint(1, 2))]}
@@ -179,6 +182,7 @@ def correspond(ctx):
                 ctx.violation('c07:solvers-disagree:nonlinear:%s-vs-%s' % (nm, ref[0]), 'kkt_%s and kkt_%s (mnl = %d) give different solutions of the same KKT system (diff %.3g)'
                               % (nm, ref[0], mnl, max(d1, d2)), {'dims': dims, 'mnl': mnl, 'sparse': sp})
     ctx.cov['systems_with_nonlinear_block'] = nl_systems
+    rng = rng_main
     # ---- W handed to a user kktsolver during real solves
     nsolve = 10 if ctx.quick() else 300
     for it in range(nsolve):
